@@ -4,6 +4,7 @@
 #include "battery.hpp"
 #include "canon.hpp"
 #include "s1.hpp"
+#include "sp.hpp"
 
 #include <dirent.h>
 
@@ -47,6 +48,11 @@ inline std::string entry_bytes(const Entry& e, const std::string& repo) {
 	for (auto& v : e1::all_versions()) if (e.version == v.name) vc = &v;
 	if (!vc) return "";
 	e1::Script none;
+	if (e.type.rfind("chain:", 0) == 0) {
+		for (auto& ch : sp::chains())
+			if (e.type == std::string("chain:") + ch.name) { sp::Built b = sp::build(ch, *vc, 0, none, true); return b.ok ? b.file : std::string(); }
+		return "";
+	}
 	s1::Built b = s1::build_s1(e.type, *vc, none, true);
 	return b.ok ? b.file : std::string();
 }
@@ -63,6 +69,16 @@ inline std::vector<Entry> corpus(const std::string& repo, bool all_versions, siz
 		r.push_back(e);
 	}
 	if (with_s1) {
+		// linked chains (shape -> data / skin / shader / texture blocks), all-defaults members
+		for (auto& ch : sp::chains())
+			for (auto vn : ch.versions) {
+				Entry e;
+				e.type = std::string("chain:") + ch.name;
+				e.version = vn;
+				e.label = e.type + "@" + vn;
+				e.keyname = e.label;
+				r.push_back(e);
+			}
 		auto vers = all_versions ? e1::all_versions() : e1::game_versions();
 		for (auto& t : e1::all_type_names())
 			for (auto& v : vers) {
